@@ -8,14 +8,15 @@ Open Scope Z_scope.
 
 Record case07 := mk07 {
   c_g : graph; c_ws : list Z; c_p0 : list N;
+  c_dbg : bool (* the harness build has debug assertions *);
   c_mp : option N; c_mm : option N; c_mi : option N (* f64 bits *); c_mb : N;
   c_orc : list pass_rec;
   c_impl : impl_res; c_mpp : list N; c_rpp : list N }.
 
 Definition eval07 (c : case07) : verdict :=
   let mi := match c_mi c with Some b => Some (f64_of_bits b) | None => None end in
-  (* fm_dbg = true: the harness is built with debug assertions *)
-  let cfg := {| fm_max_passes := c_mp c; fm_max_moves := c_mm c; fm_max_imb := mi; fm_max_bad := c_mb c; fm_dbg := true |} in
+  (* fm_dbg follows the profile of the harness that produced the case (debug / release) *)
+  let cfg := {| fm_max_passes := c_mp c; fm_max_moves := c_mm c; fm_max_imb := mi; fm_max_bad := c_mb c; fm_dbg := c_dbg c |} in
   let g := c_g c in
   let ws := c_ws c in
   let p0 := c_p0 c in
